@@ -436,6 +436,10 @@ type injection struct {
 	k       int // step (interrupt modes)
 	tickJ   int // tick call (host panic mode)
 	payload int
+	// interrupt-value family: what the interrupt function panics with instead of
+	// the sentinel error (panicNil: a literal panic(nil))
+	panicVal interface{}
+	panicNil bool
 }
 
 // state of one runtime across the first run, the follow-up and the second run
@@ -483,6 +487,12 @@ func (s *session) run(inj injection, sentinel error, stepCap int) *exec {
 		}
 		if inj.mode == modeIntPanic {
 			h.exitSeen = true
+			switch {
+			case inj.panicNil:
+				panic(nil) //nolint:govet // deliberate: the Go runtime turns it into *runtime.PanicNilError
+			case inj.panicVal != nil:
+				panic(inj.panicVal)
+			}
 			panic(sentinel)
 		}
 	}
@@ -581,12 +591,15 @@ const followUpSrc = `(function(){
 const followUpExpected = "ok:s:120,0,10,fin,x,101,102,a,w,global,undefined,undefined,123,2,function,cb,true,b" + "; " + headroomExpected
 
 // headroomSrc measures, in one Run under SetStackDepthLimit(headroomLimit), how
-// deep plain calls and direct evals can still nest before the RangeError. The
-// usable depth must not depend on the runtime's history: with limit 8 the IIFE
-// sits at index 1, rec number i at 1+i (i <= 6), and ev number i at 1+i whose
-// eval is checked against (1+i) + i active evals (i <= 3, ev number 4 still enters).
+// deep plain calls and pure direct-eval nestings can still go before the
+// RangeError. The usable depth must not depend on the runtime's history: with
+// limit 8 the IIFE sits at index 1 and rec number i at 1+i (i <= 6); tryEv runs at
+// index 2 and tryEv(j) nests j+1 direct evals (the outer eval(s) included), which need 2+j+1 units (j <= 4). (Calls and evals are
+// probed separately so that the probe does not depend on how mixed nestings are
+// charged - that is the limits-mixed family's subject.)
 const headroomSrc = `(function(){ var n = 0, m = 0; function rec(){ n++; rec(); } try { rec(); } catch (e) { if (!(e instanceof RangeError)) n = "?" + e; } ` +
-	`function ev(){ m++; eval("ev()"); } try { ev(); } catch (e) { if (!(e instanceof RangeError)) m = "?" + e; } return n + "/" + m; })()`
+	`function tryEv(k){ var s = "1"; while (k-- > 0) s = "eval(" + JSON.stringify(s) + ")"; try { eval(s); return true; } catch (e) { return !(e instanceof RangeError) && "?" + e; } } ` +
+	`for (var j = 1; j <= 10; j++) { var t = tryEv(j); if (t === true) m = j; else { if (t !== false) m = t; break; } } return n + "/" + m; })()`
 
 const headroomLimit = 8
 const headroomExpected = "headroom(limit 8)=ok:s:6/4"
